@@ -164,11 +164,11 @@ def gen_cases(ctx):
     yield {"kind": "hist", "u": "meters", "v": "millimeters", "e": [1.0, 2.0], "corpus": "F11"}
     yield {"kind": "hist", "u": "radians", "v": "degrees", "e": [0.5, 1.0]}
     # ---- statistics
-    for _ in range(260 if not th else 1500):
+    for _ in range(1200 if not th else 12000):
         kind = r.choice(["gauss", "gauss", "const", "grid", "wide", "offset", "ties"])
         n = r.choice([1, 1, 2, 2, 3, 4, 5, r.randint(1, 12), r.randint(1, 60), r.randint(1, 400)])
         yield {"kind": "stats", "gen": kind, "e": rand_errors(r, n, kind)}
-    for _ in range(3 if not th else 12):
+    for _ in range(6 if not th else 40):
         kind = r.choice(["gauss", "wide", "offset", "ties"])
         yield {"kind": "stats", "gen": kind, "e": rand_errors(r, r.randint(2000, 6000 if not th else 20000), kind)}
     if th:
@@ -181,18 +181,18 @@ def gen_cases(ctx):
             yield {"kind": "units", "chain": [u, v], "e": rand_errors(r, n, r.choice(["gauss", "wide", "grid"]))}
     for u in UNITS:
         yield {"kind": "units", "chain": [u, r.choice(UNITS)], "e": []}
-    for _ in range(60 if not th else 600):
+    for _ in range(300 if not th else 3000):
         fam = r.choice([["millimeters", "centimeters", "meters", "kilometers"], ["degrees", "radians"], UNITS])
         chain = [r.choice(fam) for _ in range(r.randint(3, 6))]
         yield {"kind": "units", "chain": chain, "e": rand_errors(r, r.randint(1, 8), r.choice(["gauss", "wide"]))}
-    for _ in range(40 if not th else 300):
+    for _ in range(200 if not th else 2000):
         u, v = r.choice(UNITS), r.choice(UNITS)
         if r.random() < 0.6:
             fam = r.choice([["millimeters", "centimeters", "meters", "kilometers"], ["degrees", "radians"]])
             u, v = r.choice(fam), r.choice(fam)
         yield {"kind": "hist", "u": u, "v": v, "e": rand_errors(r, r.randint(1, 9), r.choice(["gauss", "grid"]))}
     # ---- ape() / rpe()
-    for _ in range(220 if not th else 2500):
+    for _ in range(900 if not th else 9000):
         grid = r.random() < 0.4
         n = r.randint(3, 14 if not th else 40)
         c = {"kind": r.choice(["ape", "rpe", "rpe"]), "grid": grid, "traj": gen_traj(r, n, grid),
